@@ -117,10 +117,10 @@ class SeamMemoryFS(MemoryFS, Seam):
 
     def open(self, path, mode="r", *a, **kw):
         if self.counting:
-            self._tick("open", f"{path} {mode}")
+            self._tick("open", f"{os.path.basename(path)} {mode}")
         f = MemoryFS.open(self, path, mode, *a, **kw)
         if self.counting and ("w" in mode or "a" in mode or "+" in mode):
-            return CountingWriter(self, f, path)
+            return CountingWriter(self, f, os.path.basename(path))
         return f
 
     # harness helpers (never counted)
